@@ -813,8 +813,180 @@ class ModView:
     def func(self, q):
         return self._views.get(q) or self._mod.func(q)
 
+    def has(self, q):
+        return q in self._views or self._mod.has(q)
+
     def __getattr__(self, name):
         return getattr(self._mod, name)
+
+
+# --------------------------------------------------------------------------
+# the two single-step routines of a layout manager, found by ROLE: `X(source, dest, layout_source, layout_dest)` (the source is the
+# workspace) and `X_source_intact(source, dest, buf, layout_source, layout_dest)`.  When the two were merged into one routine with an
+# optional buffer (`buf=None`), each rule still reads the two behaviours: the merged routine specialised for `buf is None` and for
+# `buf is not None` (tests on the parameter folded, `buf = source` written through).
+STEP_PARAMS = {"source", "dest", "layout_source", "layout_dest"}
+
+
+class _FoldNone(ast.NodeTransformer):
+    """the tests `p is None` / `p is not None` / `p == None` / `p != None` are known"""
+
+    def __init__(self, p, is_none):
+        self.p, self.is_none = p, is_none
+
+    def visit_Compare(self, node):
+        self.generic_visit(node)
+        if len(node.ops) == 1 and isinstance(node.ops[0], (ast.Is, ast.IsNot, ast.Eq, ast.NotEq)):
+            a, b = node.left, node.comparators[0]
+            for x, y in ((a, b), (b, a)):
+                if isinstance(x, ast.Name) and x.id == self.p and isinstance(y, ast.Constant) and y.value is None:
+                    truth = self.is_none if isinstance(node.ops[0], (ast.Is, ast.Eq)) else not self.is_none
+                    return ast.copy_location(ast.Constant(value=truth), node)
+        return node
+
+    def visit_UnaryOp(self, node):
+        self.generic_visit(node)
+        if isinstance(node.op, ast.Not) and isinstance(node.operand, ast.Constant) and isinstance(node.operand.value, bool):
+            return ast.copy_location(ast.Constant(value=not node.operand.value), node)
+        return node
+
+    def visit_BoolOp(self, node):
+        self.generic_visit(node)
+        is_and = isinstance(node.op, ast.And)
+        vals = []
+        for v in node.values:
+            if isinstance(v, ast.Constant) and isinstance(v.value, bool):
+                if v.value != is_and:
+                    return ast.copy_location(ast.Constant(value=v.value), node)        # False in `and` / True in `or`
+                continue
+            vals.append(v)
+        if not vals:
+            return ast.copy_location(ast.Constant(value=is_and), node)
+        if len(vals) == 1:
+            return vals[0]
+        node.values = vals
+        return node
+
+    def visit_IfExp(self, node):
+        self.generic_visit(node)
+        if isinstance(node.test, ast.Constant) and isinstance(node.test.value, bool):
+            return node.body if node.test.value else node.orelse
+        return node
+
+
+def _fold_constant_ifs(fn):
+    changed = True
+    while changed:
+        changed = False
+        for owner, f, blk in list(_blocks_of(fn)):
+            for k, st in enumerate(blk):
+                if isinstance(st, ast.If) and isinstance(st.test, ast.Constant) and isinstance(st.test.value, bool):
+                    taken = st.body if st.test.value else st.orelse
+                    blk[k:k + 1] = list(taken)
+                    if not blk:
+                        blk.append(ast.copy_location(ast.Pass(), st))
+                    changed = True
+                    break
+            if changed:
+                break
+
+
+def propagate_param_aliases(fn):
+    """`p = q` at the top level of the function (p, q parameters; p bound nowhere else, q never rebound): the later reads of p are
+    reads of q (the statement is dropped); `p = p` is dropped"""
+    params = {a.arg for a in fn.args.args}
+    n_done = 0
+    for k, st in enumerate(list(fn.body)):
+        if not (isinstance(st, ast.Assign) and len(st.targets) == 1 and isinstance(st.targets[0], ast.Name) and isinstance(st.value, ast.Name)):
+            continue
+        p, q = st.targets[0].id, st.value.id
+        if p not in params or q not in params:
+            continue
+        if p == q:
+            fn.body.remove(st)
+            n_done += 1
+            continue
+        stores_p = sum(1 for x in ast.walk(fn) if isinstance(x, ast.Name) and x.id == p and isinstance(x.ctx, (ast.Store, ast.Del)))
+        if stores_p != 1 or _stores(fn, q):
+            continue
+        idx = next(i for i, s_ in enumerate(fn.body) if s_ is st)
+        for j in range(idx + 1, len(fn.body)):
+            fn.body[j] = _Subst({p: ast.Name(id=q, ctx=ast.Load())}).visit(fn.body[j])
+        fn.body.remove(st)
+        n_done += 1
+    if n_done:
+        ast.fix_missing_locations(fn)
+        link(fn)
+    return n_done
+
+
+def specialise_on_none(fn, p, is_none, new_name=None):
+    """private copy of a routine for the calls in which parameter p is (is not) None"""
+    v = clone(fn)
+    v._parent = getattr(fn, "_parent", None)
+    _FoldNone(p, is_none).visit(v)
+    _fold_constant_ifs(v)
+    split_parallel_assign(v)
+    propagate_param_aliases(v)
+    final = p
+    if new_name and new_name != p and not _occurs(v, new_name) and not any(a.arg == new_name for a in v.args.args):
+        for a in v.args.args:
+            if a.arg == p:
+                a.arg = new_name
+        _RenameAll(p, new_name).visit(v)
+        final = new_name
+    names = [a.arg for a in v.args.args]
+    pos = names.index(final)
+    first_def = len(names) - len(v.args.defaults)
+    if is_none:
+        # the parameter is absent in these calls: when nothing reads it any more it is not one of the routine's arrays
+        if not any(isinstance(x, ast.Name) and x.id == final for b_ in v.body for x in ast.walk(b_)):
+            if pos >= first_def:
+                del v.args.defaults[pos - first_def]
+            del v.args.args[pos]
+    elif pos >= first_def:
+        # always given in these calls: a required parameter (the parameters after it keep their defaults)
+        if pos == first_def:
+            del v.args.defaults[0]
+    ast.fix_missing_locations(v)
+    link(v)
+    v._parent = getattr(fn, "_parent", None)
+    return v
+
+
+def canonical_steps(mod, cls_name):
+    """the module with `<cls>._transpose` and `<cls>._transpose_source_intact` present: the module itself when both exist; when they
+    were merged into one routine with an optional spare buffer, a view holding the two specialisations of that routine"""
+    if isinstance(mod, ModView):
+        return mod
+    cache = mod.__dict__.setdefault("_c01_canon_steps", {})
+    if cls_name in cache:
+        return cache[cls_name]
+    q0, q1 = f"{cls_name}._transpose", f"{cls_name}._transpose_source_intact"
+    out = mod
+    if mod.has(cls_name) and not (mod.has(q0) and mod.has(q1)):
+        meths = class_methods(mod, cls_name)
+        merged = []
+        for nm, m in meths.items():
+            ps = [a.arg for a in m.args.args if a.arg not in ("self", "cls")]
+            if not STEP_PARAMS <= set(ps):
+                continue
+            extra = [p_ for p_ in ps if p_ not in STEP_PARAMS]
+            dflt = dict(zip([a.arg for a in m.args.args][len(m.args.args) - len(m.args.defaults):], m.args.defaults))
+            opt = [p_ for p_ in extra if isinstance(dflt.get(p_), ast.Constant) and dflt[p_].value is None]
+            if len(extra) == 1 and opt == extra:
+                merged.append((nm, m, extra[0]))
+        preferred = [x for x in merged if x[0] in ("_transpose", "_transpose_source_intact")] or merged
+        if len(preferred) == 1:
+            nm, m, p = preferred[0]
+            va = specialise_on_none(m, p, True, "buf")
+            vb = specialise_on_none(m, p, False, "buf")
+            va.name, vb.name = "_transpose", "_transpose_source_intact"
+            va._qual, vb._qual = q0, q1
+            va._merged_from = vb._merged_from = f"{cls_name}.{nm}"
+            out = ModView(mod, {q0: va, q1: vb})
+    cache[cls_name] = out
+    return out
 
 
 def call_args(call, fndef):
@@ -1917,6 +2089,61 @@ def _fast_path_send(pack, st, lo, hi, env_keep, vp, fp):
     return (None, f"`{src(st)[:70]}` writes all blocks at once under `{gtxt[:80]}`: whether the block spacing equals `{vp}` there was not established", st)
 
 
+def _recv_view_shape(unpack, fu):
+    """the shape list the unpacker views the received data with (`<receive array>.reshape(<shape list>)`), when it does not size the
+    exchanged chunk itself"""
+    arrays = [a.arg for a in unpack.args.args if a.arg in ARRAY_NAMES or a.arg in ("rcvBuf", "work", "recv", "received")]
+    roots = {p_: {p_} for p_ in arrays}
+    for n in ast.walk(unpack):
+        if isinstance(n, ast.Assign) and len(n.targets) == 1 and isinstance(n.targets[0], ast.Name):
+            r = _view_roots(n.value, roots)
+            if r:
+                roots.setdefault(n.targets[0].id, set()).update(r)
+    for n in ast.walk(unpack):
+        if isinstance(n, ast.Call) and isinstance(n.func, ast.Attribute) and n.func.attr == "reshape" and len(n.args) == 1 \
+                and isinstance(n.args[0], ast.Name) and n.args[0].id in fu.lists and fu.lists[n.args[0].id].kind == "shape":
+            r = _view_roots(n.func.value, roots)
+            if r and "data" not in r:
+                return fu.lists[n.args[0].id]
+    return None
+
+
+def _step_exchange_extents(xsite, pack, vp):
+    """exchange written in the single-step routines: both buffers of the collective are the leading (block size) x (number of ranks)
+    elements, the block size being what the packer returns (its own block size) and the number of ranks the size of the communicator
+    the collective runs on.  -> None when established, else what was not followed"""
+    import sympy
+    if not xsite:
+        return "the exchange (Alltoall) was not found once in each single-step routine"
+    rets = [r for r in ast.walk(pack) if isinstance(r, ast.Return) and r.value is not None]
+    if not (len(rets) == 1 and isinstance(rets[0].value, ast.Name) and rets[0].value.id == vp):
+        return f"the packer does not return its block size `{vp}`"
+    for fn, c, kind in xsite:
+        env = {k: v for k, v in inline_locals(fn).items() if k != "axis"}
+        blk = [k for k, v in env.items() if isinstance(v, ast.Call) and isinstance(v.func, ast.Attribute) and v.func.attr == pack.name]
+        comm = xsrc(c.func.value, env).replace(" ", "")
+        if len(blk) != 1:
+            return f"the block size returned by the packer is not kept in one local of {fn.name}"
+        keep = {k: v for k, v in env.items() if k != blk[0]}
+        want = sympy.Symbol(blk[0], integer=True) * sympy.Symbol(comm + ".Get_size()", integer=True)
+        for a in c.args[:2]:
+            cut = None
+            for root in [x.arg for x in fn.args.args if x.arg in ARRAY_NAMES]:
+                cut = cut or _flat_cut(fn, a, c, root)
+            st = c
+            while not isinstance(st, ast.stmt):
+                st = parent(st)
+            if cut is None:
+                for root in [x.arg for x in fn.args.args if x.arg in ARRAY_NAMES]:
+                    cut = cut or _flat_cut(fn, a, st, root)
+            if cut is None or cut[1] is None or (cut[0] is not None and not (isinstance(cut[0], ast.Constant) and cut[0].value == 0)):
+                return f"the extent of the buffer `{src(a)[:40]}` of the exchange in {fn.name}"
+            if sympy.expand(arith(cut[1], keep) - want) != 0:
+                return (f"the buffer `{src(a)[:40]}` of the exchange in {fn.name} holds `{xsrc(cut[1], keep)[:60]}` elements, expected (block size returned by the "
+                        f"packer) x `{comm}.Get_size()`")
+    return None
+
+
 def geometry_check(chk, mod):
     import sympy
     from ..core import increment_of, same_expr
@@ -1932,23 +2159,32 @@ def geometry_check(chk, mod):
     envi = _init_env(init)      # `axis[k]` and the two layout variables keep their names: the rules speak about them
     # packer: the block size used to advance through the send buffer; unpacker: the size of the exchanged chunk
     vp, vu = _block_size_var(fp), _block_size_var(fu)
-    if vp is None or vu is None:
+    recv_shape = _recv_view_shape(unpack, fu) if vu is None else None
+    xsite = exchange_site(mod)
+    if vp is None or (vu is None and recv_shape is None):
         where = QP if vp is None else QU
         chk.ob("G1-geometry-pack-vs-unpack", pack if vp is None else unpack, "size = np.prod(<shape list>)", None,
                f"the block size is no longer computed as `np.prod(<list(L.shape) with overridden entries>)` in {where.split('.')[-1]}: "
                "the shape-list comparison cannot be made", file=rel, func=where)
         P = Uu = None
     else:
-        slp, slu = written_out(fp.prods[vp][0], envp), written_out(fu.prods[vu][0], envu)
+        slp = written_out(fp.prods[vp][0], envp)
+        slu = written_out(fu.prods[vu][0] if vu is not None else recv_shape, envu)
         P, Uu = _canon(slp), _canon(slu)
         # mpi_size is the size of the communicator the exchange runs on
         mpi = envu.get("mpi_size")
         recv = [c for c in ast.walk(unpack) if isinstance(c, ast.Call) and isinstance(c.func, ast.Attribute) and c.func.attr == "Alltoall"]
-        comm_of_exchange = src(recv[0].func.value) if len(recv) == 1 else None
+        comm_of_exchange, comm_x = (src(recv[0].func.value), xsrc(recv[0].func.value, envu)) if len(recv) == 1 else (None, None)
+        if not recv and xsite and all(k == "step" for _, _, k in xsite):
+            # the exchange was moved into the single-step routines: the communicator as they write it (the axis triple keeps its name)
+            texts = {xsrc(c.func.value, {k: v for k, v in inline_locals(f_).items() if k != "axis"}) for f_, c, _ in xsite}
+            if len(texts) == 1:
+                comm_of_exchange = comm_x = next(iter(texts))
         okm, badm = None, None
+        who = None
         if mpi is not None and isinstance(mpi, ast.Call) and isinstance(mpi.func, ast.Attribute) and mpi.func.attr == "Get_size" and not mpi.args:
             who = xsrc(mpi.func.value, envu)
-            if comm_of_exchange is not None and who == xsrc(recv[0].func.value, envu):
+            if comm_of_exchange is not None and who == comm_x:
                 okm = True
             elif comm_of_exchange is not None:
                 badm = (f"mpi_size is the size of `{who}` but the exchange runs on `{comm_of_exchange}`: the number of blocks that are "
@@ -1957,8 +2193,14 @@ def geometry_check(chk, mod):
             okm = True if comm_of_exchange is not None else None      # written out in place: covered by the product comparison
         chk.pat("G1-mpi-size-is-comm-size", unpack, "mpi_size = comm.Get_size()", okm,
                 "mpi_size is the size of the communicator the exchange runs on", badm, file=rel, func=QU)
-        msz = sympy.Symbol("comm.Get_size()")
+        msz = sympy.Symbol((who if who is not None and okm else "comm") + ".Get_size()")
         ok = P[0] == Uu[0] and P[1] == Uu[1] and sympy.expand(P[2] * msz - Uu[2]) == 0
+        if ok and not recv:
+            # the exchange sits in the callers: what they exchange must be (the packer's block) x (communicator size) as well
+            why = _step_exchange_extents(xsite, pack, vp)
+            if why:
+                ok = None
+                chk.ob("G1-geometry-pack-vs-unpack", unpack, "size = np.prod(source_shape)", None, "cannot decide: " + why, file=rel, func=QU)
         bad = None
         if not ok and _known_product(slp) and _known_product(slu):
             if P[0] != Uu[0]:
@@ -1969,9 +2211,10 @@ def geometry_check(chk, mod):
             else:
                 bad = (f"packed block extents {P[2]} x communicator size != exchanged chunk extents {Uu[2]}: sender and receiver "
                        "disagree on the size/padding of a block, elements land in the wrong block")
-        chk.pat("G1-geometry-pack-vs-unpack", unpack, "size = np.prod(source_shape)", ok,
-                "Alltoall transfer size = (packed block size) x (communicator size), same base layout and overridden axes",
-                bad, file=rel, func=QU, facts={"packer": str(P), "unpacker": str(Uu)})
+        if ok is not None:
+            chk.pat("G1-geometry-pack-vs-unpack", unpack, "size = np.prod(source_shape)", ok,
+                    "Alltoall transfer size = (packed block size) x (communicator size), same base layout and overridden axes",
+                    bad, file=rel, func=QU, facts={"packer": str(P), "unpacker": str(Uu)})
     # the packer writes block k of the send buffer at k x (block size): every store into the send buffer is read
     packer_addressing(chk, rel, pack, fp, envp, vp, QP)
 
@@ -2280,6 +2523,12 @@ def _bufsize_rules(chk, rel, init, fi, envi, P):
             "initialised from a layout's block size (covers the single-layout case)", bad0, file=rel, func=QI, nontrivial=False)
 
 
+def enclosing_stmt_of(node):
+    while node is not None and not isinstance(node, ast.stmt):
+        node = parent(node)
+    return node
+
+
 def comm_axis_check(chk, mod):
     """G2: pack, exchange and unpack of one step use the same axis object and the communicator of the swapped axis"""
     rel = mod.rel
@@ -2302,14 +2551,24 @@ def comm_axis_check(chk, mod):
                    "of their arguments cannot be compared here", file=rel, func=q)
             continue
         pa, ua = call_args(pks[0], dpk), call_args(ups[0], dup)
-        need = ("layout_source", "layout_dest", "axis", "comm")
+        need = ("layout_source", "layout_dest", "axis")
         if pa is None or ua is None or any(k not in pa or k not in ua for k in need) or "tobuffer" not in pa or "data" not in ua:
             chk.ob("G2-comm-axis-agreement", fn, what, None, "arguments of the pack/unpack calls could not be matched with the parameters",
                    file=rel, func=q)
             continue
         axp, axu = xsrc(pa["axis"], env), xsrc(ua["axis"], env)
         cenv = {k: v for k, v in env.items() if k != "axis"}
-        cp_, cu_ = xsrc(pa["comm"], cenv), xsrc(ua["comm"], cenv)
+        # the communicator: what the packer / the unpacker are given, and what a collective written in this routine itself runs on
+        xs = [c for c in ast.walk(fn) if isinstance(c, ast.Call) and isinstance(c.func, ast.Attribute) and c.func.attr in ("Alltoall", "Alltoallv", "alltoall")]
+        comms = []
+        if pa.get("comm") is not None:
+            comms.append(("the packer is given the communicator", xsrc(pa["comm"], cenv)))
+        if ua.get("comm") is not None:
+            comms.append(("the exchange/unpack", xsrc(ua["comm"], cenv)))
+        for c_ in xs:
+            comms.append(("the exchange in this routine runs on", xsrc(c_.func.value, cenv)))
+        cp_ = comms[0][1] if comms else None
+        cu_ = next((t for _, t in comms if t != cp_), cp_)
         lay_p = (src(pa["layout_source"]), src(pa["layout_dest"]))
         lay_u = (src(ua["layout_source"]), src(ua["layout_dest"]))
         bad, und = [], []
@@ -2339,8 +2598,11 @@ def comm_axis_check(chk, mod):
             else:
                 und.append(f"axis triple `{axp}`")
         import re
-        if cp_ != cu_:
-            bad.append(f"the packer is given the communicator `{cp_}`, the exchange/unpack `{cu_}`")
+        if cp_ is None or (ua.get("comm") is None and not xs):
+            und.append("the communicator of the exchange (neither passed to the unpacker nor used by a collective in this routine)")
+        elif cp_ != cu_:
+            a_, b_ = comms[0], next(x for x in comms if x[1] != cp_)
+            bad.append(f"{a_[0]} `{a_[1]}`, {b_[0]} `{b_[1]}`")
         else:
             m = re.fullmatch(r"self\._subcomms\[axis\[(\d)\]\]", cp_.replace(" ", ""))
             if m and m.group(1) != "0":
@@ -2355,6 +2617,10 @@ def comm_axis_check(chk, mod):
         # the unpack reads what the pack wrote: the buffer the packer fills is the send buffer of the exchange
         b1, b2 = xsrc(pa["tobuffer"], env), xsrc(ua["data"], env)
         params = {a.arg for a in fn.args.args}
+        if xs and ua.get("comm") is None:
+            # the collective is written here: its send buffer is a cut of one of this routine's arrays
+            sent = [r_ for r_ in params if r_ in ARRAY_NAMES and _flat_cut(fn, xs[0].args[0], enclosing_stmt_of(xs[0]), r_) is not None] if xs[0].args else []
+            b2 = sent[0] if len(sent) == 1 else "<send buffer of the exchange not followed>"
         okb = b1 == b2
         badb = None
         if not okb and b1 in params and b2 in params:
@@ -2403,6 +2669,116 @@ def _axis_table(chk, mod, sub):
     return True if seen >= 2 else None
 
 
+def record_fields(tree, name):
+    """field names, in order, of a small record type defined at module level: `X = namedtuple('X', [...])` / `namedtuple('X', 'a b c')`,
+    a NamedTuple / dataclass-style class with annotated fields, or a class whose __init__ stores its parameters; None when not found"""
+    for st in getattr(tree, "body", []):
+        if isinstance(st, ast.Assign) and len(st.targets) == 1 and isinstance(st.targets[0], ast.Name) and st.targets[0].id == name \
+                and isinstance(st.value, ast.Call) and src(st.value.func).split(".")[-1] in ("namedtuple", "NamedTuple") and len(st.value.args) >= 2:
+            f = st.value.args[1]
+            if isinstance(f, (ast.List, ast.Tuple)):
+                out = []
+                for x in f.elts:
+                    if isinstance(x, ast.Constant) and isinstance(x.value, str):
+                        out.append(x.value)
+                    elif isinstance(x, ast.Tuple) and x.elts and isinstance(x.elts[0], ast.Constant):
+                        out.append(x.elts[0].value)
+                    else:
+                        return None
+                return out
+            if isinstance(f, ast.Constant) and isinstance(f.value, str):
+                return f.value.replace(",", " ").split()
+        if isinstance(st, ast.ClassDef) and st.name == name:
+            ann = [b.target.id for b in st.body if isinstance(b, ast.AnnAssign) and isinstance(b.target, ast.Name)]
+            if ann:
+                return ann
+            for b in st.body:
+                if isinstance(b, ast.FunctionDef) and b.name == "__init__":
+                    return [a.arg for a in b.args.args[1:]]
+    return None
+
+
+def swap_axes_producer(fn):
+    """how _get_swap_axes hands out (process axis, position in the source, position in the destination), whatever container it uses:
+    -> dict(loop, iv, nv, items=[expressions in the order they are stored], keys=[the key of each item: its position in a list/tuple,
+    its field name in a record, its key in a dict], adds=[nodes that store them], other=[statements that change the container in a way
+    that is not read], form='list'|'record'); None when the loop over the process-grid directions is not recognised"""
+    loops = [n for n in ast.walk(fn) if isinstance(n, ast.For)]
+    if not (len(loops) == 1 and isinstance(loops[0].iter, ast.Call) and src(loops[0].iter.func) == "enumerate" and len(loops[0].iter.args) == 1
+            and isinstance(loops[0].target, ast.Tuple) and len(loops[0].target.elts) == 2 and all(isinstance(e, ast.Name) for e in loops[0].target.elts)):
+        return None
+    L = loops[0]
+    iv, nv = (e.id for e in L.target.elts)
+    rets = [n for n in ast.walk(fn) if isinstance(n, ast.Return) and n.value is not None]
+    out = dict(loop=L, iv=iv, nv=nv, items=[], keys=[], adds=[], other=[], form=None, lst=None, empty=None)
+    in_loop = [r for r in rets if any(x is r for x in ast.walk(L))]
+    if len(rets) == 1 and isinstance(rets[0].value, ast.Name) and not in_loop:
+        lst = rets[0].value.id
+        out["form"], out["lst"] = "list", lst
+        entries = []
+        for n in ast.walk(L):
+            if isinstance(n, ast.Call) and isinstance(n.func, ast.Attribute) and src(n.func.value) == lst:
+                if n.func.attr == "append" and len(n.args) == 1:
+                    entries.append((n.lineno, n.col_offset, [n.args[0]], n))
+                elif n.func.attr == "extend" and len(n.args) == 1 and isinstance(n.args[0], (ast.List, ast.Tuple)):
+                    entries.append((n.lineno, n.col_offset, list(n.args[0].elts), n))
+                elif n.func.attr in ("extend", "insert", "pop", "remove", "clear", "__iadd__"):
+                    out["other"].append(n)
+            elif isinstance(n, ast.AugAssign) and src(n.target) == lst:
+                if isinstance(n.op, ast.Add) and isinstance(n.value, (ast.List, ast.Tuple)):
+                    entries.append((n.lineno, n.col_offset, list(n.value.elts), n))
+                else:
+                    out["other"].append(n)
+        out["other"] += [n for n in ast.walk(fn) if isinstance(n, ast.Assign) and any(src(t) == lst for t in n.targets) and
+                         not (isinstance(n.value, ast.List) and not n.value.elts)]
+        entries.sort(key=lambda x: (x[0], x[1]))
+        out["items"] = [e for _, _, es, _ in entries for e in es]
+        out["keys"] = list(range(len(out["items"])))
+        out["adds"] = [n for _, _, _, n in entries]
+        out["empty"] = "list"
+        return out
+    # the triple is returned from inside the loop, for the first direction that qualifies; after the loop: the `nothing changes` value
+    if len(in_loop) == 1 and len(rets) <= 2:
+        r = in_loop[0]
+        v = r.value
+        last = [x for x in rets if x is not r]
+        if last:
+            lv = last[0].value
+            if isinstance(lv, ast.Constant) and lv.value is None:
+                out["empty"] = "none"
+            elif isinstance(lv, (ast.List, ast.Tuple)) and not lv.elts:
+                out["empty"] = "list"
+            else:
+                out["other"].append(last[0])
+        else:
+            out["empty"] = "none"          # falling off the end returns None
+        items, keys = None, None
+        if isinstance(v, (ast.List, ast.Tuple)):
+            items, keys = list(v.elts), list(range(len(v.elts)))
+        elif isinstance(v, ast.Dict) and all(isinstance(k, ast.Constant) for k in v.keys):
+            items, keys = list(v.values), [k.value for k in v.keys]
+        elif isinstance(v, ast.Call) and isinstance(v.func, ast.Name) and not any(isinstance(a, ast.Starred) for a in v.args):
+            top = fn
+            while getattr(top, "_parent", None) is not None:
+                top = top._parent
+            fields = record_fields(top, v.func.id) if isinstance(top, ast.Module) else None
+            if v.func.id in ("list", "tuple") and len(v.args) == 1 and isinstance(v.args[0], (ast.List, ast.Tuple)):
+                items, keys = list(v.args[0].elts), list(range(len(v.args[0].elts)))
+            elif fields is not None and len(v.args) <= len(fields) and all(k.arg in fields for k in v.keywords):
+                items = list(v.args) + [k.value for k in v.keywords]
+                keys = fields[:len(v.args)] + [k.arg for k in v.keywords]
+                out["record_type"] = v.func.id
+            elif not v.args and v.keywords and all(k.arg for k in v.keywords):
+                items, keys = [k.value for k in v.keywords], [k.arg for k in v.keywords]
+                out["record_type"] = v.func.id
+        if items is None:
+            return None
+        out["form"] = "record"
+        out["items"], out["keys"], out["adds"] = items, keys, [r]
+        return out
+    return None
+
+
 def swap_axes_def_check(chk, mod):
     """axis triple of _get_swap_axes matches its documented roles (positions in source/dest orderings)"""
     import re
@@ -2414,39 +2790,13 @@ def swap_axes_def_check(chk, mod):
     what = "axis = [i, src.index(dest_dim), dst.index(source_dim)]"
     good = ("axis[0] = swapped process axis, axis[1] = position in the source of the dimension distributed in the "
             "destination, axis[2] = position in the destination of the dimension distributed in the source")
-    loops = [n for n in ast.walk(fn) if isinstance(n, ast.For)]
-    rets = [n for n in ast.walk(fn) if isinstance(n, ast.Return) and n.value is not None]
-    lst = src(rets[0].value) if len(rets) == 1 and isinstance(rets[0].value, ast.Name) else None
-    iv = None
-    if len(loops) == 1 and isinstance(loops[0].iter, ast.Call) and src(loops[0].iter.func) == "enumerate" and len(loops[0].iter.args) == 1 \
-            and isinstance(loops[0].target, ast.Tuple) and len(loops[0].target.elts) == 2 and all(isinstance(e, ast.Name) for e in loops[0].target.elts):
-        iv, nv = (e.id for e in loops[0].target.elts)
-    if iv is None or lst is None:
+    prod = swap_axes_producer(fn)
+    if prod is None:
         chk.ob("G2-swap-axes-roles", fn, what, None, "the loop over the process-grid directions / the returned list was not recognised",
                file=rel, func=Q)
         return
-    # what is added to the list inside the loop, in order: append(x) / extend([x, y]) / lst += [x, y]
-    entries, apps, other = [], [], []
-    for n in ast.walk(loops[0]):
-        if isinstance(n, ast.Call) and isinstance(n.func, ast.Attribute) and src(n.func.value) == lst:
-            if n.func.attr == "append" and len(n.args) == 1:
-                entries.append((n.lineno, n.col_offset, [n.args[0]]))
-                apps.append(n)
-            elif n.func.attr == "extend" and len(n.args) == 1 and isinstance(n.args[0], (ast.List, ast.Tuple)):
-                entries.append((n.lineno, n.col_offset, list(n.args[0].elts)))
-                apps.append(n)
-            elif n.func.attr in ("extend", "insert", "pop", "remove", "clear", "__iadd__"):
-                other.append(n)
-        elif isinstance(n, ast.AugAssign) and src(n.target) == lst:
-            if isinstance(n.op, ast.Add) and isinstance(n.value, (ast.List, ast.Tuple)):
-                entries.append((n.lineno, n.col_offset, list(n.value.elts)))
-                apps.append(n)
-            else:
-                other.append(n)
-    other += [n for n in ast.walk(fn) if isinstance(n, ast.Assign) and any(src(t) == lst for t in n.targets) and
-              not (isinstance(n.value, ast.List) and not n.value.elts)]
-    entries.sort(key=lambda x: (x[0], x[1]))
-    items = [e for _, _, es in entries for e in es]
+    loops, iv, nv, lst = [prod["loop"]], prod["iv"], prod["nv"], prod["lst"]
+    items, apps, other = prod["items"], prod["adds"], prod["other"]
     xenv = {k: v for k, v in env.items() if k not in (iv, nv, lst)}
     got = [xsrc(e, xenv).replace(" ", "") for e in items]
     want = [iv, f"layout_source.dims_order.index(layout_dest.dims_order[{iv}])", f"layout_dest.dims_order.index(layout_source.dims_order[{iv}])"]
@@ -2498,33 +2848,15 @@ def axis_convention(fn):
     """the positions at which _get_swap_axes stores (process axis, position in the source, position in the destination), when it stores
     exactly these three in some order: [p0, p1, p2] (reference: [0, 1, 2]); None when the producer is not read"""
     env = inline_locals(fn)
-    loops = [n for n in ast.walk(fn) if isinstance(n, ast.For)]
-    rets = [n for n in ast.walk(fn) if isinstance(n, ast.Return) and n.value is not None]
-    if not (len(loops) == 1 and len(rets) == 1 and isinstance(rets[0].value, ast.Name) and isinstance(loops[0].target, ast.Tuple)
-            and len(loops[0].target.elts) == 2 and all(isinstance(e, ast.Name) for e in loops[0].target.elts)):
+    prod = swap_axes_producer(fn)
+    if prod is None or prod["other"]:
         return None
-    lst = rets[0].value.id
-    iv, nv = (e.id for e in loops[0].target.elts)
-    entries = []
-    for n in ast.walk(loops[0]):
-        if isinstance(n, ast.Call) and isinstance(n.func, ast.Attribute) and src(n.func.value) == lst:
-            if n.func.attr == "append" and len(n.args) == 1:
-                entries.append((n.lineno, n.col_offset, [n.args[0]]))
-            elif n.func.attr == "extend" and len(n.args) == 1 and isinstance(n.args[0], (ast.List, ast.Tuple)):
-                entries.append((n.lineno, n.col_offset, list(n.args[0].elts)))
-            elif n.func.attr in ("extend", "insert", "pop", "remove", "clear"):
-                return None
-        elif isinstance(n, ast.AugAssign) and src(n.target) == lst:
-            if isinstance(n.op, ast.Add) and isinstance(n.value, (ast.List, ast.Tuple)):
-                entries.append((n.lineno, n.col_offset, list(n.value.elts)))
-            else:
-                return None
-    entries.sort(key=lambda x: (x[0], x[1]))
+    iv, nv, lst = prod["iv"], prod["nv"], prod["lst"]
     xenv = {k: v for k, v in env.items() if k not in (iv, nv, lst)}
-    got = [xsrc(e, xenv).replace(" ", "") for _, _, es in entries for e in es]
+    got = [xsrc(e, xenv).replace(" ", "") for e in prod["items"]]
     want = [iv, f"layout_source.dims_order.index(layout_dest.dims_order[{iv}])", f"layout_dest.dims_order.index(layout_source.dims_order[{iv}])"]
     if len(got) == 3 and sorted(got) == sorted(want):
-        return [got.index(w) for w in want]
+        return [prod["keys"][got.index(w)] for w in want]
     return None
 
 
@@ -2542,6 +2874,85 @@ class _AxisRenumber(ast.NodeTransformer):
             new._axis_orig = node.slice.value
             node.slice = new
         return node
+
+
+class _RecordToAxis(ast.NodeTransformer):
+    """the variables that hold the result of _get_swap_axes are written `axis`, their items `axis[k]` with k the canonical position of
+    the role (k-th of: process axis, position in the source, position in the destination) whatever container the producer uses
+    (record field `X.f`, dict key `X['f']`, another position `X[j]`); `X is None` (a producer that returns None when no distributed
+    direction changes) is `len(axis) == 0`"""
+
+    def __init__(self, names, to_canon, none_is_empty):
+        self.names, self.m, self.none = set(names), dict(to_canon), none_is_empty
+
+    def _axis(self, node, k, orig=None):
+        new = ast.Subscript(value=ast.Name(id="axis", ctx=ast.Load()), slice=ast.Constant(value=k), ctx=getattr(node, "ctx", ast.Load()))
+        if isinstance(orig, int):
+            new.slice._axis_orig = orig
+        return ast.copy_location(new, node)
+
+    def visit_Attribute(self, node):
+        if isinstance(node.value, ast.Name) and node.value.id in self.names and node.attr in self.m:
+            return self._axis(node, self.m[node.attr])
+        self.generic_visit(node)
+        return node
+
+    def visit_Subscript(self, node):
+        if isinstance(node.value, ast.Name) and node.value.id in self.names and isinstance(node.slice, ast.Constant) and node.slice.value in self.m:
+            return self._axis(node, self.m[node.slice.value], node.slice.value)
+        self.generic_visit(node)
+        return node
+
+    def visit_Compare(self, node):
+        if self.none and len(node.ops) == 1 and isinstance(node.left, ast.Name) and node.left.id in self.names \
+                and isinstance(node.comparators[0], ast.Constant) and node.comparators[0].value is None \
+                and isinstance(node.ops[0], (ast.Is, ast.IsNot, ast.Eq, ast.NotEq)):
+            op = ast.Eq() if isinstance(node.ops[0], (ast.Is, ast.Eq)) else ast.NotEq()
+            new = ast.Compare(left=ast.Call(func=ast.Name(id="len", ctx=ast.Load()), args=[ast.Name(id="axis", ctx=ast.Load())], keywords=[]),
+                              ops=[op], comparators=[ast.Constant(value=0)])
+            return ast.copy_location(new, node)
+        self.generic_visit(node)
+        return node
+
+    def visit_Name(self, node):
+        if node.id in self.names:
+            return ast.copy_location(ast.Name(id="axis", ctx=node.ctx), node)
+        return node
+
+    def visit_arg(self, node):
+        if node.arg in self.names:
+            node.arg = "axis"
+        return node
+
+
+def swap_axes_variables(mod, cls_name):
+    """{method name: the local names / parameters that hold a result of _get_swap_axes} - by def-use: the targets of
+    `x = self._get_swap_axes(...)` and the parameters such a variable is passed for in calls of methods of the same class"""
+    meths = class_methods(mod, cls_name)
+    out = {m: set() for m in meths}
+    for m, fn in meths.items():
+        for n in ast.walk(fn):
+            if isinstance(n, ast.Assign) and len(n.targets) == 1 and isinstance(n.targets[0], ast.Name) and isinstance(n.value, ast.Call) \
+                    and _own_class_call(n.value, cls_name, meths) == "_get_swap_axes":
+                out[m].add(n.targets[0].id)
+    for _ in range(4):
+        changed = False
+        for m, fn in meths.items():
+            if not out[m]:
+                continue
+            for c in ast.walk(fn):
+                if isinstance(c, ast.Call):
+                    g = _own_class_call(c, cls_name, meths)
+                    if g is None:
+                        continue
+                    am = call_args(c, meths[g]) or {}
+                    for p_, v in am.items():
+                        if isinstance(v, ast.Name) and v.id in out[m] and p_ not in out[g]:
+                            out[g].add(p_)
+                            changed = True
+        if not changed:
+            break
+    return out
 
 
 def orig_src(node):
@@ -2808,10 +3219,175 @@ class ThreeValued:
         return getattr(self._chk, name)
 
 
+def _own_calls(fn, callee_name):
+    return [c for c in ast.walk(fn) if isinstance(c, ast.Call) and isinstance(c.func, ast.Attribute) and c.func.attr == callee_name
+            and isinstance(c.func.value, ast.Name) and c.func.value.id in ("self", "cls", CLS)]
+
+
+def _set_arg(call, fndef, param, new):
+    """replace the argument bound to `param` in a call of fndef"""
+    params = [a.arg for a in fndef.args.args]
+    static = any(isinstance(d, ast.Name) and d.id == "staticmethod" for d in fndef.decorator_list)
+    if params and params[0] in ("self", "cls") and not static:
+        params = params[1:]
+    for k in call.keywords:
+        if k.arg == param:
+            k.value = new
+            return True
+    if param in params and params.index(param) < len(call.args):
+        call.args[params.index(param)] = new
+        return True
+    return False
+
+
+def hoist_view_prologue(views, callee_q, caller_qs):
+    """responsibility moved from the callers into the callee: `v = <view of the array parameter p, built from parameters only>` as a
+    prologue statement of the callee, p used nowhere else.  Equivalent: every caller passes that view and the callee's parameter is the
+    view.  The views are rewritten that way (the rules speak about what the callee is handed)."""
+    callee = views.get(callee_q)
+    if callee is None:
+        return 0
+    params = [a.arg for a in callee.args.args]
+    n_done = 0
+    for st in list(callee.body):
+        if isinstance(st, ast.Expr) and isinstance(st.value, ast.Constant):
+            continue
+        if not (isinstance(st, ast.Assign) and len(st.targets) == 1 and isinstance(st.targets[0], ast.Name)):
+            break
+        v = st.targets[0].id
+        names = {x.id for x in ast.walk(st.value) if isinstance(x, ast.Name)}
+        arrs = [x for x in names if x in ARRAY_NAMES and x in params]
+        if len(arrs) != 1 or not names <= set(params) | {"np", "numpy"} or v in params:
+            break
+        p_ = arrs[0]
+        if not any(isinstance(c, ast.Call) and isinstance(c.func, ast.Attribute) and c.func.attr == "reshape" for c in ast.walk(st.value)):
+            break
+        uses_p = sum(1 for x in ast.walk(callee) if isinstance(x, ast.Name) and x.id == p_)
+        stores_v = sum(1 for x in ast.walk(callee) if isinstance(x, ast.Name) and x.id == v and isinstance(x.ctx, ast.Store))
+        if uses_p != 1 or stores_v != 1:
+            break
+        sites = [(views[q], c) for q in caller_qs if q in views for c in _own_calls(views[q], callee.name)]
+        if not sites:
+            break
+        plans = []
+        for fn, c in sites:
+            am = call_args(c, callee)
+            if am is None or any(x not in am for x in names if x in params):
+                plans = None
+                break
+            plans.append((c, _Subst({x: am[x] for x in names if x in params}).visit(clone(st.value))))
+        if plans is None:
+            break
+        for c, new in plans:
+            _set_arg(c, callee, p_, new)
+        callee.body.remove(st)
+        _RenameAll(v, p_).visit(callee)
+        n_done += 1
+        break
+    if n_done:
+        for q in [callee_q] + list(caller_qs):
+            if q in views:
+                ast.fix_missing_locations(views[q])
+                link(views[q])
+    return n_done
+
+
+def bind_invariant_params(views, callee_q, caller_qs):
+    """a value the callee used to compute itself is now computed by the callers and passed in (e.g. the size of the communicator):
+    when every call site passes the same expression, written with `self` and with names the callee receives under the same name, the
+    parameter is that expression - the callee's view gets it as a local definition, so caller and callee are read as one unit"""
+    callee = views.get(callee_q)
+    if callee is None:
+        return 0
+    sites = [(views[q], c) for q in caller_qs if q in views for c in _own_calls(views[q], callee.name)]
+    if not sites:
+        return 0
+    n_done = 0
+    for a in list(callee.args.args):
+        p_ = a.arg
+        if p_ in ("self", "cls") or p_ in ARRAY_NAMES or p_ in STEP_PARAMS or p_ in ("axis", "comm"):
+            continue          # the arrays, the two layouts, the axis triple and the communicator are what the rules speak about
+        texts, expr = set(), None
+        for fn, c in sites:
+            am = call_args(c, callee)
+            if am is None or am.get(p_) is None:
+                texts = None
+                break
+            same_named = {q_ for q_, v_ in am.items() if isinstance(v_, ast.Name) and v_.id == q_}
+            ex = expand(am[p_], {k: v for k, v in inline_locals(fn).items() if k not in same_named})
+            if isinstance(ex, (ast.Name, ast.Constant)):
+                texts = None
+                break
+            arrays = {x.arg: {x.arg} for x in fn.args.args if x.arg in ARRAY_NAMES or x.arg in ("work", "rcvBuf", "sendBuf")}
+            if _read_roots(ex, arrays):
+                texts = None
+                break
+            free = {x.id for x in ast.walk(ex) if isinstance(x, ast.Name)} - {"self", "np", "numpy", "len", "int"}
+            if not free <= same_named:
+                texts = None
+                break
+            texts.add(src(ex))
+            expr = ex
+        if not texts or len(texts) != 1:
+            continue
+        # the definition replaces the parameter
+        pos = [x.arg for x in callee.args.args].index(p_)
+        first_def = len(callee.args.args) - len(callee.args.defaults)
+        if pos >= first_def:
+            del callee.args.defaults[pos - first_def]
+        del callee.args.args[pos]
+        k = 1 if callee.body and isinstance(callee.body[0], ast.Expr) and isinstance(callee.body[0].value, ast.Constant) else 0
+        new = ast.Assign(targets=[ast.Name(id=p_, ctx=ast.Store())], value=expr)
+        ast.copy_location(new, callee.body[k] if k < len(callee.body) else callee)
+        callee.body.insert(k, new)
+        callee._bound_params = getattr(callee, "_bound_params", []) + [p_]
+        for fn, c in sites:
+            # the call sites no longer pass it
+            c.keywords = [kw for kw in c.keywords if kw.arg != p_]
+            if pos - (0 if any(isinstance(d, ast.Name) and d.id == "staticmethod" for d in callee.decorator_list) else 1) < len(c.args) and \
+                    not any(kw.arg == p_ for kw in c.keywords):
+                idx = pos - (0 if any(isinstance(d, ast.Name) and d.id == "staticmethod" for d in callee.decorator_list) else 1)
+                if 0 <= idx < len(c.args):
+                    del c.args[idx]
+        n_done += 1
+    if n_done:
+        for q in [callee_q] + list(caller_qs):
+            if q in views:
+                ast.fix_missing_locations(views[q])
+                link(views[q])
+    return n_done
+
+
+def exchange_site(mod):
+    """where the blocks are exchanged: (function, Alltoall call, 'unpacker' | 'step'); the collective may sit in the unpacker or,
+    when the phases are separated, in the single-step routines (read with their helpers written in place).  None when there is not
+    exactly one such call per routine"""
+    QU = f"{CLS}._rearrange_from_buffer"
+    if mod.has(QU):
+        fn = mod.func(QU)
+        cs = [c for c in ast.walk(fn) if isinstance(c, ast.Call) and isinstance(c.func, ast.Attribute) and c.func.attr in ("Alltoall", "Alltoallv", "alltoall")]
+        if len(cs) == 1:
+            return [(fn, cs[0], "unpacker")]
+        if cs:
+            return None
+    out = []
+    for nm in ("_transpose", "_transpose_source_intact"):
+        q = f"{CLS}.{nm}"
+        if not mod.has(q):
+            return None
+        fn = mod.func(q)
+        cs = [c for c in ast.walk(fn) if isinstance(c, ast.Call) and isinstance(c.func, ast.Attribute) and c.func.attr in ("Alltoall", "Alltoallv", "alltoall")]
+        if len(cs) != 1:
+            return None
+        out.append((fn, cs[0], "step"))
+    return out
+
+
 def handler_view(chk, mod):
     """the LayoutHandler routines as the shape-reading rules see them (unit_view of each, one per run)"""
     cache = chk.__dict__.setdefault("_c01_hviews", {})
     if mod.rel not in cache:
+        mod = canonical_steps(mod, CLS)
         views = {}
         want = has_call("_extract_from_source")
         for nm in ("_transpose", "_transpose_source_intact"):
@@ -2824,12 +3400,37 @@ def handler_view(chk, mod):
                 views[q] = unit_view(mod, CLS, q)
         # a consistent renumbering of the axis triple is a convention: the consumers are read in the reference numbering
         conv = axis_convention(mod.func(f"{CLS}._get_swap_axes")) if mod.has(f"{CLS}._get_swap_axes") else None
-        if conv is not None and conv != [0, 1, 2]:
+        prod = swap_axes_producer(mod.func(f"{CLS}._get_swap_axes")) if conv is not None else None
+        if conv is not None and (conv != [0, 1, 2] or prod["empty"] == "none"):
             to_canon = {p_: k for k, p_ in enumerate(conv)}
-            for q, v in views.items():
-                if not q.endswith("._get_swap_axes"):
-                    _AxisRenumber(to_canon).visit(v)
+            if all(isinstance(p_, int) for p_ in conv) and prod["empty"] != "none":
+                for q, v in views.items():
+                    if not q.endswith("._get_swap_axes"):
+                        _AxisRenumber(to_canon).visit(v)
+                        ast.fix_missing_locations(v)
+            else:
+                # another container (record fields, dict keys) and/or None for `no distributed direction changes`: the consumers are
+                # read with the variables that hold the triple written `axis` and its items `axis[k]`
+                holders = swap_axes_variables(mod, CLS)
+                for q, v in views.items():
+                    nm = q.split(".")[-1]
+                    if nm == "_get_swap_axes":
+                        continue
+                    orig = getattr(v, "_merged_from", q).split(".")[-1]
+                    names = holders.get(nm) or holders.get(orig) or set()
+                    if not names:
+                        continue
+                    bound = {x.id for x in ast.walk(v) if isinstance(x, ast.Name)} | {a.arg for a in v.args.args}
+                    if "axis" in bound and "axis" not in names:
+                        continue          # `axis` already means something else here: left as it is (the rules will not decide)
+                    _RecordToAxis(names, to_canon, prod["empty"] == "none").visit(v)
                     ast.fix_missing_locations(v)
+                    link(v)
+        # work moved between the single-step routines and the kernels they call: read caller and callee as one unit
+        steps = [f"{CLS}._transpose", f"{CLS}._transpose_source_intact"]
+        hoist_view_prologue(views, f"{CLS}._extract_from_source", steps)
+        for q in (f"{CLS}._extract_from_source", f"{CLS}._rearrange_from_buffer"):
+            bind_invariant_params(views, q, steps)
         cache[mod.rel] = ModView(mod, views)
     return cache[mod.rel]
 
@@ -2957,10 +3558,86 @@ def payload_dtype(chk, mod, cls=CLS):
            file=rel, func=cls, nontrivial=False)
 
 
+def workspace_sizes(chk, mod, cls=CLS):
+    """G1-workspace-size: every array that takes part in an exchange holds at least bufferSize elements (the size __init__ computes from
+    the padded blocks and transpose() asserts for the caller's arrays).  An array the class allocates ITSELF and hands to one of its
+    routines as an array argument (or to a collective) must be allocated with that size: the allocation is followed through locals,
+    `return` and the call sites of the allocating helper."""
+    import re
+    rel = mod.rel
+    rule = "G1-workspace-size"
+    meths = class_methods(mod, cls)
+
+    def allocs(fn):
+        out = {}
+        for n in ast.walk(fn):
+            if isinstance(n, ast.Assign) and len(n.targets) == 1 and isinstance(n.targets[0], ast.Name) and isinstance(n.value, ast.Call) \
+                    and isinstance(n.value.func, ast.Attribute) and isinstance(n.value.func.value, ast.Name) and n.value.func.value.id in ("np", "numpy") \
+                    and n.value.func.attr in _ALLOC and n.value.args:
+                out[n.targets[0].id] = (n.value, fn)
+        return out
+    returns = {}          # method name -> (allocation call, allocating method)
+    for nm, fn in meths.items():
+        al = allocs(fn)
+        for r in ast.walk(fn):
+            if isinstance(r, ast.Return) and isinstance(r.value, ast.Name) and r.value.id in al:
+                returns[nm] = al[r.value.id]
+            elif isinstance(r, ast.Return) and isinstance(r.value, ast.Call) and isinstance(r.value.func, ast.Attribute) \
+                    and src(r.value.func.value) in ("np", "numpy") and r.value.func.attr in _ALLOC and r.value.args:
+                returns[nm] = (r.value, fn)
+    for nm, fn in meths.items():
+        tainted = dict(allocs(fn))
+        for n in ast.walk(fn):
+            if isinstance(n, ast.Assign) and len(n.targets) == 1 and isinstance(n.targets[0], ast.Name) and isinstance(n.value, ast.Call):
+                g = _own_class_call(n.value, cls, meths)
+                if g in returns:
+                    tainted[n.targets[0].id] = returns[g]
+        for _ in range(4):
+            for n in ast.walk(fn):
+                if isinstance(n, ast.Assign) and len(n.targets) == 1 and isinstance(n.targets[0], ast.Name) and isinstance(n.value, ast.Name) \
+                        and n.value.id in tainted and n.targets[0].id not in tainted:
+                    tainted[n.targets[0].id] = tainted[n.value.id]
+        if not tainted:
+            continue
+        for c in ast.walk(fn):
+            if not isinstance(c, ast.Call):
+                continue
+            used = []
+            g = _own_class_call(c, cls, meths)
+            if g is not None:
+                am = call_args(c, meths[g]) or {}
+                used = [(p_, v) for p_, v in am.items() if p_ in ARRAY_NAMES and isinstance(v, ast.Name) and v.id in tainted]
+            elif isinstance(c.func, ast.Attribute) and c.func.attr in _COLLECTIVES:
+                used = [("buffer of " + c.func.attr, a) for a in c.args[:2] for x in ast.walk(a) if isinstance(x, ast.Name) and x.id in tainted
+                        for a in [x]]
+            for p_, v in used:
+                call, afn = tainted[v.id]
+                env = inline_locals(afn)
+                size = xsrc(call.args[0], env)
+                t = size.replace(" ", "")
+                ok, bad = None, None
+                layout_size = re.search(r"\b(layout_source|layout_dest|l1|l2)\.(size|shape)\b|self\._layouts\[[^\]]+\]\.(size|shape)\b|"
+                                        r"(\w+)\.(size|shape)for\4inself\._layouts\.values\(\)|getLayout\([^)]*\)\.(size|shape)\b", t)
+                if re.fullmatch(r"self\._buffer_size|self\.bufferSize", t) or re.fullmatch(r"max\(.*self\.(_buffer_size|bufferSize).*\)", t) \
+                        or re.fullmatch(r"(source|dest|buf)\.size|len\((source|dest|buf)\)", t):
+                    ok = True          # the advertised size, or the size of one of the caller's arrays (asserted to be at least that)
+                elif "_buffer_size" not in t and "bufferSize" not in t and "Get_size" not in t and "max_block" not in t and layout_size:
+                    bad = (f"`{v.id}` is allocated in {cls}.{afn.name} with `{size[:90]}` elements - the size of a LOCAL block - and passed as `{p_}` "
+                           f"in `{src(c)[:70]}`: one exchange step moves (padded source block x padded destination block) x communicator size "
+                           "elements, which is what bufferSize is computed from and what transpose() asserts for the caller's arrays; as soon as "
+                           "an extent is not a multiple of the number of processes this exceeds every local layout size, the receive view is "
+                           "shorter than the send view and the Alltoall / the reshape of the received data fails")
+                o = chk.pat(rule, c, f"{cls}.{nm}: {v.id} = {src(call)[:50]} used as `{p_}`", ok,
+                            "the array the handler allocates for the exchange has the advertised buffer size", bad, file=rel, func=f"{cls}.{nm}")
+                if not ok and not bad:
+                    o.msg = f"the size `{size[:80]}` of the array allocated for the exchange could not be compared with bufferSize"
+
+
 def handler_contract(chk, mod):
     """the element-placement part of the handler's contract: geometry, axis roles, permutations, read-only route map"""
     distinct_buffers(chk, mod)
     payload_dtype(chk, mod)
+    workspace_sizes(chk, mod)
     raw = mod
     mod = handler_view(chk, raw)
     fp, fu = geometry_check(chk, mod)
@@ -2970,7 +3647,7 @@ def handler_contract(chk, mod):
     engine(chk, "P1-transpose-permutation", mod.func(f"{CLS}._transpose"), "permutation typing of the handler's array stores",
            permcheck.check_layout_handler, ThreeValued(chk, ("P1-packer-input-view", "P1-consistent-swaps")), mod, file=U.LAYOUT,
            func=f"{CLS}._transpose")
-    mod = raw
+    mod = canonical_steps(raw, CLS)
     # the cached route map is only read by the transposes
     from .. import lints
     for q in (f"{CLS}.transpose", f"{CLS}._transposeRedirect", f"{CLS}._transposeRedirect_source_intact"):
